@@ -247,6 +247,8 @@ fn scenarios() -> Vec<(&'static str, String, String, &'static str)> {
         ("on-error-resume-next", "ON ERROR RESUME NEXT\nZ% = 0\nX% = 3\nX% = 10 / Z%\nPRINT X%; ERR\n".into(), crlf(&[" 3  11 "]), "ok"),
         ("goto-out-of-inner-for", "FOR I = 1 TO 3\nFOR J = 10 TO 30 STEP 10\nIF J = 20 THEN GOTO Out1\nNEXT\nOut1:\nPRINT I\nNEXT\n".into(), crlf(&[" 1 ", " 2 ", " 3 "]), "ok"),
         ("exit-sub-inside-for", "FOR I = 1 TO 3\nP\nPRINT I\nNEXT\nEND\nSUB P\nFOR J = 10 TO 50 STEP 20\nEXIT SUB\nNEXT\nEND SUB\n".into(), crlf(&[" 1 ", " 2 ", " 3 "]), "ok"),
+        ("exit-function-inside-select", "PRINT 100 + F%(2)\nEND\nFUNCTION F% (N%)\nF% = N%\nSELECT CASE N%\nCASE 2\nEXIT FUNCTION\nEND SELECT\nEND FUNCTION\n".into(), crlf(&[" 102 "]), "ok"),
+        ("exit-sub-inside-select", "X% = 5\nPRINT 100 + X%;\nP 2\nPRINT 200 + X%\nEND\nSUB P (N%)\nSELECT CASE N%\nCASE 2\nEXIT SUB\nEND SELECT\nEND SUB\n".into(), crlf(&[" 105  205 "]), "ok"),
         ("goto-out-of-while", "I% = 0\nWHILE I% < 5\nI% = I% + 1\nIF I% = 2 THEN GOTO Done\nWEND\nDone:\nPRINT I%\n".into(), crlf(&[" 2 "]), "ok"),
         ("return-label-pops-the-gosub", "GOSUB Outer\nPRINT \"main\"\nEND\nOuter:\nPRINT \"o1\"\nGOSUB Inner\nPRINT \"skipped\"\nAfter:\nPRINT \"o2\"\nRETURN\nInner:\nPRINT \"i\"\nRETURN After\n".into(), crlf(&["o1", "i", "o2", "main"]), "ok"),
         ("return-label-then-stray-return", "GOSUB A\nPRINT \"m\"\nRETURN\nEND\nA:\nRETURN B\nB:\nPRINT \"b\"\nRETURN\n".into(), crlf(&["b"]), "error 3"),
